@@ -134,6 +134,12 @@ pub fn run_composite(rep: &mut Report, p: &Params, xs: &[In]) {
                 let want = (dd(k) * dd(d)).sqr();
                 let tol = tq * m * m * (k * k) + 16.0 * f64::EPSILON * (m + k.abs() * d) * (k.abs() * d) + 1e-300;
                 c.check("halfwidth_sq_vs_k_SD", hw.sqr().to_f64(), want.to_f64(), tol, hist);
+                // the bands are average +- k*SD with the sign of k as given: for k < 0 "upper" lies below
+                // (rounding cannot flip the order of x + e and x - e)
+                let signed = if hw.to_f64() == 0.0 { 0.0 } else { hw.to_f64() * if k < 0.0 { -1.0 } else { 1.0 } };
+                if signed.is_finite() {
+                    c.check("band_orientation", signed, hw.to_f64().abs(), 0.0, hist);
+                }
             }
             Kind::Slow => {
                 let f = v!(fast.feed(x));
